@@ -55,6 +55,98 @@ Theorem C03_K3_guard0_unguarded : forall m p t, modify 0 m p t = modify_with rei
 Proof. intros. split; [reflexivity|]. eexists; eexists; reflexivity. Qed.
 Print Assumptions C03_K3_guard0_unguarded.
 
+(* ==== history level (Table/Inv4.v) ================================================================ *)
+From SV Require Import KeyEnc.Model Table.InvDefs Table.Inv Table.Inv2 Table.Inv4.
+
+(* reads in the same transaction see its own earlier writes: after a successful Insert / Modify /
+   CompareAndSwap (write_op: Table/Inv4.v) on a locked table of the open transaction, Get through the
+   transaction returns the new object, the table revision is the object's, the previous object was
+   returned, and the committed root is untouched *)
+Theorem C03_txn_reads_own_write : forall d o tab g m p es old t prev,
+  write_op o = Some (tab, g, m, p) ->
+  d_txn d = Some (es, old) -> nth_error es tab = Some (t, true) ->
+  snd (step d o) = OutWrite prev EOk ->
+  let d' := fst (step d o) in
+  let obj := new_object m p t in
+  prev = om_get (p_id p) (t_primary t) /\
+  o_rev obj = t_rev t + 1 /\
+  snd (step d' (OQuery STxn tab (QGet IPrimary (p_id p)))) = OutGet (Some obj) /\
+  snd (step d' (OQuery STxn tab QRev)) = OutNum (o_rev obj) /\
+  d_root d' = d_root d.
+Proof. exact read_own_write. Qed.
+Print Assumptions C03_txn_reads_own_write.
+
+(* Insert on a locked table always succeeds and is read back *)
+Theorem C03_insert_then_get : forall d tab p es old t,
+  d_txn d = Some (es, old) -> nth_error es tab = Some (t, true) ->
+  snd (step (fst (step d (OInsert tab p))) (OQuery STxn tab (QGet IPrimary (p_id p))))
+  = OutGet (Some (mkO p (t_rev t + 1))).
+Proof. exact insert_then_get. Qed.
+Print Assumptions C03_insert_then_get.
+
+(* ... and leaves what Get returns for every other key as it was *)
+Theorem C03_write_frames_other_keys : forall d o tab g m p es old t k,
+  write_op o = Some (tab, g, m, p) ->
+  d_txn d = Some (es, old) -> nth_error es tab = Some (t, true) -> om_sorted (t_primary t) -> k <> p_id p ->
+  snd (step (fst (step d o)) (OQuery STxn tab (QGet IPrimary k))) = snd (step d (OQuery STxn tab (QGet IPrimary k))).
+Proof. exact write_frames_other_keys. Qed.
+Print Assumptions C03_write_frames_other_keys.
+
+(* a write (Insert, Modify, CompareAndSwap, Delete, CompareAndDelete: write_tab) on a table the open
+   transaction does not hold is rejected with ErrTableNotLockedForWriting and changes nothing at all *)
+Theorem C03_write_not_locked : forall d o tab es old t, write_tab o = Some tab ->
+  d_txn d = Some (es, old) -> nth_error es tab = Some (t, false) -> step d o = (d, OutWrite None ENotLocked).
+Proof. exact write_not_locked. Qed.
+Print Assumptions C03_write_not_locked.
+
+(* ... and without an open transaction (committed / aborted) with ErrTransactionClosed *)
+Theorem C03_write_closed : forall d o tab, write_tab o = Some tab -> d_txn d = None ->
+  step d o = (d, OutWrite None EClosed).
+Proof. exact write_closed. Qed.
+Print Assumptions C03_write_closed.
+
+(* refinement: under ANY list of write operations (Insert, Modify, CompareAndSwap, Delete,
+   CompareAndDelete, DeleteAll: wop / apply_wop / run_wops) the abstraction
+     abs_state t = (t_rev t, [(id, (value, revision)) | object in primary order])
+   evolves exactly as the keyed-map specification (spec_wop / spec_run over Base/OrdMap: om_get,
+   om_insert, om_delete with a revision counter), with the documented results (previous value,
+   ErrObjectNotFound, ErrRevisionNotEqual) — for every table whose primary index is keyed by the
+   objects' own keys (keys_ok, part of TInv) *)
+Theorem C03_writes_refine_keyed_map : forall ws t, keys_ok t ->
+  spec_run (abs_state t) ws = (abs_state (fst (run_wops t ws)), map abs_res (snd (run_wops t ws))).
+Proof. exact wops_refine. Qed.
+Print Assumptions C03_writes_refine_keyed_map.
+
+(* the operations of a write transaction on one of its locked tables ARE run_wops on that table
+   entry: other entries and the committed root are untouched, outputs are the operations' results *)
+Theorem C03_txn_writes_are_table_writes : forall ws d tab es old t,
+  d_txn d = Some (es, old) -> nth_error es tab = Some (t, true) ->
+  let t' := fst (run_wops t ws) in
+  let d' := fst (run d (map (op_of_wop tab) ws)) in
+  exists es', d_txn d' = Some (es', old) /\ nth_error es' tab = Some (t', true) /\
+    (forall i, i <> tab -> nth_error es' i = nth_error es i) /\ d_root d' = d_root d /\
+    snd (run d (map (op_of_wop tab) ws)) =
+      map (fun wx => out_of_wop (fst wx) (snd wx)) (combine ws (snd (run_wops t ws))).
+Proof. exact txn_wops. Qed.
+Print Assumptions C03_txn_writes_are_table_writes.
+
+(* a Delete in a write transaction returns the previous object (or its absence), and the key reads as
+   absent afterwards in the same transaction *)
+Theorem C03_txn_reads_own_delete : forall d tab id es old t,
+  d_txn d = Some (es, old) -> nth_error es tab = Some (t, true) -> om_sorted (t_primary t) ->
+  snd (step d (ODelete tab id)) = OutWrite (om_get id (t_primary t)) EOk /\
+  snd (step (fst (step d (ODelete tab id))) (OQuery STxn tab (QGet IPrimary id))) = OutGet None.
+Proof. exact read_own_delete. Qed.
+Print Assumptions C03_txn_reads_own_delete.
+
 Example C03_nonvacuous : exists t' old, modify 1 false (mkP [97] 2 [] [] [] [])
    (fst (modify 0 false (mkP [97] 1 [] [] [] []) empty_table)) = (t', (old, EOk)) /\ old <> None.
 Proof. eexists; eexists; split; [vm_compute; reflexivity|discriminate]. Qed.
+
+Example C03_history_nonvacuous :
+  let d := fst (run (init_db 2) [OBegin [0%nat]]) in
+  snd (run d [OInsert 0 (mkP [97] 1 [] [] [] []); OQuery STxn 0 (QGet IPrimary [97]); OInsert 1 (mkP [97] 1 [] [] [] [])])
+  = [OutWrite None EOk; OutGet (Some (mkO (mkP [97] 1 [] [] [] []) 1)); OutWrite None ENotLocked] /\
+  spec_run (abs_state empty_table) [WInsert (mkP [97] 1 [] [] [] []); WModify (mkP [97] 2 [] [] [] []); WCas 1 (mkP [97] 5 [] [] [] []); WDeleteAll]
+  = ((3, []), [(None, EOk); (Some (1, 1), EOk); (Some (3, 2), ERevMismatch); (None, EOk)]).
+Proof. split; vm_compute; reflexivity. Qed.
